@@ -498,6 +498,20 @@ pub fn parse_output_format(
 
 		let param_id = param_split[0];
 
+		// A parameter given twice is rejected (the earlier
+		// value would otherwise never be checked)
+		if param_split.len() > 2 ||
+			params.contains_key(param_id)
+		{
+			report.error(
+				format!(
+					"invalid format argument `{},{}`",
+					format_id,
+					param));
+
+			return Err(());
+		}
+
 		if param_split.len() == 1
 		{
 			params.insert(param_id.to_string(), "".to_string());
